@@ -176,8 +176,65 @@ def dec_read_slice(m, cfg, f, args, t):
     return Fork([(okm, ok(Slice(None, 'input@%d' % k, n))), (errm, err(eoi_error()))])
 
 
+def consumed_len(st):
+    """bytes consumed so far as a linear value (None if a slice length is opaque)"""
+    from .absint import lin_add
+    tot = Int.const(0)
+    for e in _consumed(st):
+        if e[0] == 'READ1':
+            tot = lin_add(tot, Int.const(1), 1)
+        elif e[0] == 'READN':
+            tot = lin_add(tot, Int.const(e[1]), 1)
+        elif e[0] == 'READSLICE':
+            if not isinstance(e[1], Int):
+                return None
+            tot = lin_add(tot, e[1], 1)
+    return tot
+
+
+def dec_position(m, cfg, f, args, t):
+    from .absint import lin_add
+    st = cfg.st
+    if 'pos0' not in st.ranges:
+        st.ranges['pos0'] = ((0, 1 << 40),)
+        st.symty['pos0'] = 'usize'
+    c = consumed_len(st)
+    if c is None:
+        return Atom(fresh('pos'), {'s': 'usize', 'k': 'int:usize'})
+    return lin_add(Int.sym('pos0'), c, 1)
+
+
+def dec_set_position(m, cfg, f, args, t):
+    from .absint import lin_add
+    st = cfg.st
+    p = args[1]
+    cur_pos = dec_position(m, cfg, f, args, t)
+    if isinstance(p, Int) and isinstance(cur_pos, Int):
+        d = lin_add(p, cur_pos, -1)
+        if d.is_const() and d.c == 0:
+            return UNIT
+        if d.is_const() and d.c == 1 and st.extra.get('cur') is not None:
+            _consume(st, ('READ1', st.extra['cur']))   # steps over the byte that was just inspected
+            return UNIT
+    st.events.append(('SETPOS', p))
+    st.extra.pop('cur', None)
+    st.extra.pop('peek', None)
+    return UNIT
+
+
+def dec_input(m, cfg, f, args, t):
+    st = cfg.st
+    if 'inputlen' not in st.ranges:
+        st.ranges['inputlen'] = ((0, 1 << 40),)
+        st.symty['inputlen'] = 'usize'
+    return Slice(None, 'input', Int.sym('inputlen'))
+
+
 def decoder_overrides():
     return {
+        DEC + 'position': dec_position,
+        DEC + 'set_position': dec_set_position,
+        DEC + 'input': dec_input,
         DEC + 'read': dec_read,
         DEC + 'current': dec_current,
         DEC + 'peek': dec_peek,
